@@ -188,7 +188,10 @@ type ConverterGenFunc func(Value) (*Func, error)
 func ConverterGen(fs ...ConverterGenFunc) Arg {
 	return func(a *argBuilder) error {
 		for _, f := range fs {
-			a.convGens = append(a.convGens, f)
+			// Any nil arguments are ignored, like for ConverterFunc.
+			if f != nil {
+				a.convGens = append(a.convGens, f)
+			}
 		}
 		return nil
 	}
@@ -218,7 +221,10 @@ func FilterOutput(f FilterFunc) Arg {
 // arguments. If this isn't specified, the default hclog.L() logger is used.
 func Logger(l hclog.Logger) Arg {
 	return func(a *argBuilder) error {
-		a.logger = l
+		// A nil logger is ignored; the default logger stays in place.
+		if l != nil {
+			a.logger = l
+		}
 		return nil
 	}
 }
